@@ -17,6 +17,7 @@ import functools
 import hashlib
 import json
 import math
+import re
 import struct as _struct
 import zlib
 from typing import Any, Dict, List, Optional, Tuple
@@ -860,15 +861,85 @@ def float_dc():
     return st.sampled_from([float("nan"), -float("nan"), True, False]).map(enc)
 
 
+# Text that LOOKS like the syntax of the formats a string value travels in (JSON, Python literals, YAML): the value of a
+# String field is opaque content, whatever it resembles.  Tokens are joined at random; the templates are lists of numbers
+# the way pretty-printers write them (padding blanks inside the brackets, after the commas, line breaks + indentation).
+_SYN_NUMBERS = ["0", "1", "2", "3", "7", "-1", "12", "255", "1.5", "-1.5e+3", "1e5", "2E-3", "0.0", "-0", "NaN", "Infinity", "-Infinity"]
+_SYN_WS = ["", " ", " ", "  ", "   ", "\t", "\n", "\n  ", "\r\n"]
+_SYN_TOKENS = (
+    ["[", "]", "{", "}", "(", ")", "[ ", " ]", "{ ", " }", "[]", "{}", "[ ]", "{ }", ",", ", ", " ,", ":", ": ", " : ", "\"", "'", "\\",
+     "\\n", "\\t", "\\r", "\\\"", "\\\\", "\\u0041", "\\x41", "\\/", "/", "NaN", "Infinity", "-Infinity", "null", "true", "false",
+     "None", "True", "False", "nan", "inf", "~", "a", "b", "key", "channels", "x", "#", "- ", "-", "|", ">", "&", "*", "!", "%", "@",
+     "`", "//", "/*", "*/", "\n", "\t", "\r\n", "=", ";", "<", "</", "$", "${", "%s", "{0}", "?", "'" * 3, "\"" * 3, "\":\"", "\": \"",
+     "\",", "\", \"", "---", "...", "<<", "!!", "\x7f", "\x01", "\x1b[0m", "\x08", "\x0c"]
+    + _SYN_NUMBERS + _SYN_WS
+)
+_SYN_TEMPLATES = ["[ 1, 2, 3 ]", "[ 7 ]", "[ -1.5e+3,  2 ]", "channels: [ 1, 2, 3 ]", "{\"a\": [ 1, 2 ]}", "[\n  1,\n  2\n]", "[1, 2, 3]",
+                  "[ NaN, Infinity ]", "{ \"k\" : 1 }", "- a: 1", "key: value", "a: [ 1 ]", "[ 1,2 ]", "( 1, 2 )", "{ 1, 2 }", "[ 0 ]",
+                  "\"[ 1 ]\"", "\\n", "\\\"", "null", "true", "NaN", "Infinity", " ", "  ", "\\", "\"", "[ 1 , 2 ]", "[  1,  2  ]",
+                  "[\t1,\t2\t]"]
+
+
+@st.composite
+def _syn_number_list(draw):
+    """'[' ws number (',' ws number)* ws ']' in a drawn bracket pair, with one padding style or independent paddings."""
+    op, cl = draw(st.sampled_from(["[]", "[]", "[]", "{}", "()"]))
+    nums = draw(st.lists(st.sampled_from(_SYN_NUMBERS), min_size=0, max_size=4))
+    ws = st.sampled_from(_SYN_WS)
+    same = draw(ws) if draw(st.booleans()) else None
+    parts = [op, draw(ws) if same is None else same]
+    for i, num in enumerate(nums):
+        if i:
+            parts.append("," + (draw(ws) if same is None else same))
+        parts.append(num)
+    parts += [draw(ws) if same is None else same, cl]
+    return "".join(parts)
+
+
+_SYN_PIECE = st.one_of(st.sampled_from(_SYN_TOKENS), st.sampled_from(_SYN_TOKENS), st.sampled_from(_SYN_TEMPLATES), _syn_number_list())
+
+
+@functools.lru_cache(maxsize=8192)
+def syntax_text(max_len: int, min_len: int = 0):
+    """Plain str (NOT encoded) of min_len..max_len ASCII characters (no NUL) made of pieces that look like JSON / Python /
+    YAML syntax: padded number lists, brackets, braces, quotes, backslashes (also backslash + 'n' as two characters),
+    colons, commas, NaN / Infinity / null / true, runs of blanks, leading and trailing blanks and line breaks."""
+
+    def fit(pieces):
+        s = "".join(pieces)
+        if len(s) > max_len:
+            s = s[:max_len] if len(pieces) % 2 else s[len(s) - max_len:]  # keep the head or the tail
+        i = 0
+        while len(s) < min_len:
+            s += (pieces[i % len(pieces)] or " ")[: min_len - len(s)]
+            i += 1
+        return s
+
+    return st.lists(_SYN_PIECE, min_size=1, max_size=8).map(fit)
+
+
+_SYN_LOOK = re.compile(r"[\[{(]\s+\S|\S\s+[\]})]|NaN|Infinity|null|true|false|\\[nrtux\"\\/]|^\s|\s$|,\s|:\s|\s\s")
+
+
+def looks_like_syntax(s: str) -> bool:
+    """Evidence class: the text contains an opening / closing bracket with padding inside, a JSON keyword, a backslash
+    escape spelled out, leading / trailing white space, white space after a comma or colon, or a run of white space."""
+    return bool(_SYN_LOOK.search(s))
+
+
 @functools.lru_cache(maxsize=8192)
 def str_in(n: int, nul: bool = False):
-    """ASCII strings of length <= n-1; the maximum length, empty, control characters and quotes are frequent."""
+    """ASCII strings of length <= n-1; the maximum length, empty, control characters and quotes are frequent, and every
+    fourth one is text that looks like JSON / Python / YAML syntax (see syntax_text)."""
     alpha = st.sampled_from([_ASCII, _CTRL, _QUOTES, "ab", _ASCII + ("\0" if nul else "")])
-    return st.one_of(
+    alts = [
         st.just(""),
         alpha.flatmap(lambda a: st.text(alphabet=a, min_size=n - 1, max_size=n - 1)),
         alpha.flatmap(lambda a: st.text(alphabet=a, min_size=0, max_size=n - 1)),
-    ).map(enc)
+    ]
+    if n >= 2:
+        alts.append(syntax_text(n - 1))
+    return st.one_of(alts).map(enc)
 
 
 @functools.lru_cache(maxsize=8192)
